@@ -14,7 +14,8 @@ import Nstd.Server.ModelC13
     time passed), `send` outcomes, peers sending / closing / dialling.
   * `_queuedTimers` (MultiMap<int64, TimerImpl*>) is modelled at the level of its contract
     (C01, with the repaired lower-bound `find`): a key-sorted list, FIFO among equal keys.
-  * The model mirrors the REPAIRED remove(client) (fixes/server: `_removed` flag, D20).
+  * The model mirrors the REPAIRED code (fixes/server: `_removed` flag of remove(client), D20;
+    poll time-out recomputed after the closing loop).
   * `fault` is set when the real code would go through a null/dangling pointer (callback of a
     client without callback, event for an unknown socket …); `no_fault` is a theorem.
 -/
@@ -106,8 +107,8 @@ inductive Ev
 inductive Pc
   | idle                 -- not inside run()
   | timers (now : Int)   -- in the timer loop of an iteration that sampled `now`
-  | closing (now : Int)  -- in the closing loop
-  | poll (now : Int)     -- about to call _sockets.poll(timeout)
+  | closing (now : Int) (timeout : Int)  -- in the closing loop; `timeout` was computed when the timer loop ended
+  | poll (now : Int) (timeout : Int)     -- about to call _sockets.poll(timeout)
   deriving Repr, DecidableEq
 
 structure St where
@@ -439,10 +440,14 @@ def step (s : St) (inp : PollIn) (o : Outcome) : St × List Ev :=
             ((callback s1 t none).1, [.activated t now k])
           | none => ({ s with queue := rest, fault := true }, [])
         | none => ({ s with queue := qInsert rest (now + 300000) none }, [])
-      else ({ s with pc := .closing now }, [])
-  | .closing now =>
+      else ({ s with pc := .closing now (k - now) }, [])
+  | .closing now _ =>
     match s.closing with
-    | [] => ({ s with pc := .poll now }, [])
+    | [] =>
+      -- (repaired) the time-out is recomputed: onClosed callbacks may have created / removed timers
+      match s.queue with
+      | [] => ({ s with fault := true }, [])
+      | (k, _) :: _ => ({ s with pc := .poll now (if k - now < 0 then 0 else k - now) }, [])
     | c :: rest =>
       let s1 := { s with closing := rest }
       match s.clients c with
@@ -450,7 +455,7 @@ def step (s : St) (inp : PollIn) (o : Outcome) : St × List Ev :=
         if cl.hasCb && !cl.removed then ((callback s1 c none).1, [.onClosed c])
         else (deleteClient s1 c, [])
       | none => ({ s1 with fault := true }, [])
-  | .poll _ =>
+  | .poll _ _ =>
     let (s1, ev) := pollStep s inp
     let (s2, evs) := dispatch s1 ev o
     if s2.pc = .idle then (s2, evs) else ({ s2 with pc := .timers s2.clock }, evs)
